@@ -309,6 +309,26 @@ def run(ctx):
             if live:
                 ctx.known(k, "%s (%d sites, e.g. %s)" % (f["what"], len(live), live[0]))
 
+    # ---- optional AS over the whole vocabulary of the grammar: for every keyword-like word, the alias spelt with and without AS
+    import c07
+    need_as = set()
+    for k, f in known.items():
+        need_as |= set(f.get("words", []))
+    new_words = []
+    for w in c07.grammar_words():
+        for pn, a, b in (("column alias", "select a as %s from t", "select a %s from t"), ("table alias", "select a from t as %s", "select a from t %s"),
+                         ("column alias", "select a AS %s, b from t", "select a %s, b from t")):
+            ra, rb = parse_or_err(impl.M.parse, a % w), parse_or_err(impl.M.parse, b % w)
+            ctx.count(1, ("as", w, pn))
+            if ra != rb and w not in need_as:
+                new_words.append(w)
+                ctx.violation("input", dict(variation="optional AS", sql=a % w, variant=b % w, with_as=short(ra, 200), without_as=short(rb, 200),
+                                            requires="the same outcome with and without AS (the word is not among the listed reserved words)"))
+                break
+    ctx.obligation("optional AS: every keyword-like word of the grammar (%d) used as an alias parses alike with and without AS, except the listed reserved words (%d)" % (len(c07.grammar_words()), len(need_as)), not new_words, str(new_words[:5]))
+    for k, f in known.items():
+        if f.get("words"):
+            ctx.known(k, "%s (%d words, e.g. %s)" % (f["what"], len(f["words"]), ", ".join(f["words"][:4])))
     ctx.log("tables and exclusion set done")
     # ---- the oracle (one worker per statement; every random choice derives from the statement's own seed)
     stmts = pool(ctx, rnd, ctx.n(90, 1500))
